@@ -48,7 +48,7 @@ Init == /\ gdb = 0 /\ gs = 0 /\ extra = {}
 \* outcome classes a step may show: "ok", "error", or either (depends on the ORM's transaction bookkeeping)
 Step(c) ==
   /\ Len(hist) < MaxDepth
-  /\ (c \in LibCmds \ (LoadCmds \cup {"lib_other_rw_reader", "lib_other_ro_reader"})) => sess.open
+  /\ (c \in LibCmds \ (LoadCmds \cup {"lib_other_rw_reader", "lib_other_ro_reader", "lib_other_sigfile_rw"})) => sess.open
   /\ (c \in LoadCmds) => ~sess.open
   /\ LET s1 ==
        CASE c \in LoadCmds -> [open |-> TRUE, pending |-> NoPending, emitted |-> FALSE, stmt |-> FALSE]
